@@ -214,6 +214,9 @@ func genMsg(t *rapid.T) []byte {
 		}
 		return m
 	}
+	if h.Pick(t, "magic", 11, 1) == 1 { // a domain-separation string of a neighbouring scheme in front
+		return append([]byte(h.OneOf(t, "magicpre", magicPrefixes...)), h.Bytes(t, "magicrest", 0, 40)...)
+	}
 	switch h.Pick(t, "ml", 6, 2, 2) {
 	case 0:
 		return h.Bytes(t, "msg", 0, 48)
@@ -230,6 +233,32 @@ func genMsg(t *rapid.T) []byte {
 	return m
 }
 
+var magicPrefixes = []string{"SigEd25519 no Ed25519 collisions", "SigEd25519 no Ed25519 collisions\x00\x00", "SigEd25519 no Ed25519 collisions\x01\x00", "SigEd448", "\x19Ethereum Signed Message:\n32", "Bitcoin Signed Message:\n", "ECVRF", "\x03\x01", "ed25519 seed"}
+
+// rVariant changes the R half of a signature the way a sloppy comparison would not notice: the case bit of a
+// byte that is an ASCII letter, the sign bit, a swap of two bytes, a trailing byte
+func rVariant(t *rapid.T, rEnc []byte) []byte {
+	v := append([]byte{}, rEnc...)
+	var letters []int
+	for i, b := range v {
+		if (b|0x20) >= 'a' && (b|0x20) <= 'z' {
+			letters = append(letters, i)
+		}
+	}
+	switch k := h.Pick(t, "rvar", 4, 1, 1, 1); {
+	case k == 0 && len(letters) > 0:
+		v[letters[rapid.IntRange(0, len(letters)-1).Draw(t, "rvl")]] ^= 0x20
+	case k == 1:
+		v[31] ^= 0x80
+	case k == 2:
+		i := rapid.IntRange(0, 30).Draw(t, "rvs")
+		v[i], v[i+1] = v[i+1], v[i]
+	default:
+		v[rapid.IntRange(0, 31).Draw(t, "rvb")] ^= 1 << uint(rapid.IntRange(0, 7).Draw(t, "rvbit"))
+	}
+	return v
+}
+
 func genBase(t *rapid.T) sigCase {
 	msg := genMsg(t)
 	tor := ed.Torsion()
@@ -240,6 +269,11 @@ func genBase(t *rapid.T) sigCase {
 		aEnc, rEnc := A.Encode(), R.Encode()
 		if h.Pick(t, "mirror", 7, 1) == 1 {
 			return sigCase{"honest+mirror", aEnc, msg, finishMirror(aEnc, rEnc, msg, a, r, rapid.IntRange(0, 2).Draw(t, "mk"))}
+		}
+		if h.Pick(t, "rvariant", 9, 1) == 1 {
+			// S = r + H(R*, A, M) a for an R* that differs from the encoding of rB: the equation holds for rB,
+			// not for what R* decodes to (if it decodes at all)
+			return sigCase{"honest+r-variant", aEnc, msg, finish(aEnc, rVariant(t, rEnc), msg, a, r)}
 		}
 		return sigCase{"honest", aEnc, msg, finish(aEnc, rEnc, msg, a, r)}
 	case 1: // torsion-mixed A and/or R, any encoding
@@ -349,7 +383,7 @@ func TestVerify(t *testing.T) {
 		Gen: genVerify, Check: checkVerify,
 		Require: []string{"honest/accept", "torsion/accept", "noncanonical/accept", "stdlib/accept", "torsion+S+jL/reject-S>=L", "honest+S+jL/reject-S>=L",
 			"honest+flip-S/reject-equation", "torsion+flip-pk/reject-A-decode", "honest+flip-R/reject-R-decode", "honest+siglen/reject-length", "random/reject-S>=L", "honest+mirror/reject-equation"},
-		Rule: "triples built from known scalars on an independent curve model: honest, A=aB+Ti / R=rB+Tj for all torsion pairs in every encoding (canonical, y+p, negative zero), small-order A and/or R, crypto/ed25519 signatures, mirrored equations built from the secret scalars (S = ka-r, r-ka, -(r+ka): hold for -R and/or -A only), then one mutation (S+jL j=1..15, bit flips in key/R/S/message, S top bits, signature length 0..70, message length, swapped halves, negated/off-curve key), plus random bytes; Verify must equal the literal ZIP-215 predicate evaluated on the model; non-trivial = not random bytes and (verdict decided by the group equation, or an S>=L / torsion / non-canonical case); distinct by triple",
+		Rule: "triples built from known scalars on an independent curve model: honest, A=aB+Ti / R=rB+Tj for all torsion pairs in every encoding (canonical, y+p, negative zero), small-order A and/or R, crypto/ed25519 signatures, mirrored equations built from the secret scalars (S = ka-r, r-ka, -(r+ka): hold for -R and/or -A only), S = r + H(R*,A,M)a for an R* that differs from the encoding of rB in the case bit of a letter byte / the sign bit / two swapped bytes / one bit, messages beginning with domain-separation strings of neighbouring schemes, then one mutation (S+jL j=1..15, bit flips in key/R/S/message, S top bits, signature length 0..70, message length, swapped halves, negated/off-curve key), plus random bytes; Verify must equal the literal ZIP-215 predicate evaluated on the model; non-trivial = not random bytes and (verdict decided by the group equation, or an S>=L / torsion / non-canonical case); distinct by triple",
 	})
 }
 
@@ -521,6 +555,48 @@ func FuzzVerify(f *testing.F) {
 // FuzzGenVerify: the structured generator driven by Go's coverage-guided fuzzer (thorough tier).
 func FuzzGenVerify(f *testing.F) {
 	h.FuzzSub(f, h.Sub[sigCase]{Prop: "C01", Name: "verify", Gen: genVerify, Check: checkVerify})
+}
+
+// every message length 0..8400: honest crypto/ed25519 signatures (which ZIP-215 accepts) and the same
+// signature for a message with one bit flipped (which it rejects: prime-order key and R)
+func TestEveryMessageLength(t *testing.T) {
+	type lenCase struct {
+		N int `json:"n"`
+	}
+	h.RunEnum(t, h.Enum[lenCase]{
+		Prop: "C01", Name: "every-message-length-0..8400",
+		Rule: "complete enumeration of message lengths 0..8400 (pattern key and message): Verify accepts the crypto/ed25519 signature and rejects it for the message with one bit flipped (honest prime-order key and R, where ZIP-215 and RFC 8032 agree); non-trivial = length >= 64",
+		Each: func(yield func(lenCase) bool) {
+			for n := 0; n <= 8400; n++ {
+				if !yield(lenCase{n}) {
+					return
+				}
+			}
+		},
+		Check: func(c lenCase) (h.Info, error) {
+			info := h.Info{Class: "len/enumerated", NT: c.N >= 64}
+			seed := make([]byte, 32)
+			for i := range seed {
+				seed[i] = byte(c.N*3 + i*29)
+			}
+			msg := make([]byte, c.N)
+			for i := range msg {
+				msg[i] = byte(i*11 + c.N + i>>8)
+			}
+			std := stded.NewKeyFromSeed(seed)
+			sig := stded.Sign(std, msg)
+			if !ed25519.Verify(ed25519.PublicKey(std[32:]), msg, sig) {
+				return info, fmt.Errorf("Verify rejects the crypto/ed25519 signature of a pattern message of %d bytes (seed %x)", c.N, seed)
+			}
+			if c.N > 0 {
+				msg[c.N/2] ^= 0x10
+				if ed25519.Verify(ed25519.PublicKey(std[32:]), msg, sig) {
+					return info, fmt.Errorf("Verify accepts the signature of a %d-byte message for the message with one bit flipped (seed %x)", c.N, seed)
+				}
+			}
+			return info, nil
+		},
+	})
 }
 
 // which public entry point is called first in a process (and by how many goroutines at once)
